@@ -8,7 +8,7 @@ from . import common
 
 META = {
     'design_ref': 'DESIGN.md §5 C14',
-    'technique': 'regular-language equivalence (DFA built from the regex literal and the raise conditions on the paths of _set_full_version, locals substituted away, vs. the Policy 5.6.12 grammar), marked-language inclusion against the recomposition template extracted from _update_full_version, marked-language inclusion in the other direction on component domains (an accepted recomposition parses back into the components it was built from), path rules check-then-commit and constructor pass-through; accepted language restricted to the parses backtracking can choose (leading optional group, lazy tails); heap interpretation of every component assignment with the real recomposition and validation (attribute stores routed through __setattr__); format-arity rule for the messages of refusals; helper inlining and join-over-table normalisation of the recomposition',
+    'technique': 'regular-language equivalence (DFA built from the regex literal and the raise conditions on the paths of _set_full_version, locals substituted away, vs. the Policy 5.6.12 grammar), marked-language inclusion against the recomposition template extracted from _update_full_version, marked-language inclusion in the other direction on component domains (an accepted recomposition parses back into the components it was built from), path rules check-then-commit and constructor pass-through; accepted language restricted to the parses backtracking can choose (leading optional group, lazy tails); heap interpretation of every component assignment with the real recomposition and validation (attribute stores routed through __setattr__); format-arity rule for the messages of refusals; helper inlining and join-over-table normalisation of the recomposition; the constructor interpreted twice over on a family of 1 800 version strings against the Policy grammar (acceptance, components, answers independent of earlier constructions)',
     'level_text': 'Static decision, for all strings over a symbolic alphabet that separates newline, blank, "_", '
                   'non-ASCII digits/letters: the accepted set of the constructor equals the Policy grammar; every '
                   'parse of every accepted string recomposes to the string; no raise after the first store and the '
